@@ -307,31 +307,48 @@ Section Splitters.
     - apply safe_omap. destruct (parse_duration_x_total s) as [H1 H2]. split; [exact H1|].
       destruct (parse_duration_x s) as [|c|]; try reflexivity. cbn. destruct (c =? 99) eqn:E; [|reflexivity].
       apply N.eqb_eq in E. subst. exfalso. apply H2. reflexivity.
+    - destruct t; try triv.
+      + apply safe_omap, parse_bool_safe.
+      + apply safe_omap, parse_number_int_safe.
+      + destruct w; try triv; apply safe_omap, parse_number_uint_safe.
+      + apply safe_omap, parse_number_int_safe.
   Qed.
 
-  Theorem parse_string_gen_safe fixed ft t : forall s, safe (parse_string_gen isp fixed true ft t s).
+  Theorem parse_string_gen_safe fixed ft : forall t s, safe (parse_string_gen isp fixed true ft t s).
   Proof.
-    induction t as [| |w|w| |e IH| | |k IHk v IHv|]; intros s; cbn [parse_string_gen].
+    assert (Hmap : forall k v s, safe (if scalar_kind k && scalar_kind v then
+              omap VMap (split_map isp fixed
+                 (fun m ks vs => kc <- parse_scalar k (tok ft k ks) ;;
+                    if existsb (fun kv => scalar_eqb kc (fst kv)) m then Err e_dup
+                    else vc <- parse_scalar v (tok ft v vs) ;; Ok (m ++ [(kc, vc)])) s [])
+            else Err e_kind)).
+    { intros k v s. destruct (scalar_kind k && scalar_kind v); [|triv]. apply safe_omap, split_map_safe.
+      intros m ks vs. apply safe_obind; [apply parse_scalar_safe|]. intros kc.
+      destruct (existsb _ m); [triv|]. apply safe_obind; [apply parse_scalar_safe|]. intros; triv. }
+    fix IH 1. intros t s.
+    assert (Hloop : forall e l, (forall x, safe (parse_string_gen isp fixed true ft e x)) ->
+              safe (omap VList (map_out (fun x => v <- parse_string_gen isp fixed true ft e (tok ft e x) ;;
+                                                 if true || scalar_kind e then Ok v else Panic p_elem_panic) l))).
+    { intros e l He. apply safe_omap, map_out_safe. intros x. apply safe_obind; [apply He|]. intros; triv. }
+    destruct t as [| |w|w| |e| | |k v| |u]; cbn [parse_string_gen].
     - apply (parse_scalar_safe TStr).
     - apply (parse_scalar_safe TBool).
     - apply (parse_scalar_safe (TInt w)).
     - apply (parse_scalar_safe (TUint w)).
     - apply (parse_scalar_safe TDur).
     - apply safe_obind; [apply string_slice_safe|]. intros l.
-      assert (H : safe (omap VList (map_out (fun x => v <- parse_string_gen isp fixed true ft e (tok ft e x) ;;
-                                                       if true || scalar_kind e then Ok v else Panic p_elem_panic) l))).
-      { apply safe_omap, map_out_safe. intros x. apply safe_obind; [apply IH|]. intros; triv. }
-      destruct e; try exact H. triv.
+      pose proof (Hloop e l (IH e)) as H. destruct e; try exact H. triv.
     - apply safe_omap, string_set_safe.
     - apply safe_omap, mss_parse_safe.
-    - destruct (scalar_kind k && scalar_kind v); [|triv]. apply safe_omap, split_map_safe.
-      intros m ks vs. apply safe_obind; [apply parse_scalar_safe|]. intros kc.
-      destruct (existsb _ m); [triv|]. apply safe_obind; [apply parse_scalar_safe|]. intros; triv.
+    - apply Hmap.
     - triv.
+    - destruct u as [| |w|w| |e| | |k v| |u']; try apply (parse_scalar_safe (TNamed _)); try triv.
+      + apply safe_obind; [apply string_slice_safe|]. intros l. apply (Hloop e l (IH e)).
+      + apply Hmap.
   Qed.
 
   Theorem parse_string_safe fixed t : forall s, safe (parse_string isp fixed true t s).
-  Proof. apply parse_string_gen_safe. Qed.
+  Proof. intros s. apply parse_string_gen_safe. Qed.
 End Splitters.
 
 (* the nested-slice panic of the pinned parse.String (fixed_elem = false) *)
